@@ -25,8 +25,10 @@ the moment of each call) and its running/enabled state are reported.
 
 Input  : {"id":..,"binary":..,"setup_dir":"/var/lib/..","snap":[4 system paths],"unit_dir":..,
           "service":..,"files":[[path,mode,hex]..],"running":b,"enabled":b,"cmds":[[args..]..],
-          "faults":[[exit status of the k-th systemctl call of command i; 0 = behave normally]..]}
-Output : {"id":..,"init":STATE,"steps":[{"args":[..],"rc":n,"state":STATE,"calls":[[args,[h..],rc]..]}]}
+          "faults":[[exit status of the k-th systemctl call of command i; 0 = behave normally]..],
+          "delays":[[seconds the k-th systemctl call of command i takes]..]}
+Output : {"id":..,"init":STATE,"steps":[{"args":[..],"rc":n,"state":STATE,
+          "calls":[[args,[h at begin..],rc,[h at end..],[args of calls begun meanwhile]]..]}]}
 STATE  : {"files":{path:[mode,sha256]},"dirs":[..],"links":{path:target},"running":b,"enabled":b}
 """
 import ctypes
@@ -36,6 +38,7 @@ import os
 import shutil
 import subprocess
 import sys
+import time
 
 HERE = os.path.dirname(os.path.abspath(__file__))
 libc = ctypes.CDLL("libc.so.6", use_errno=True)
@@ -144,21 +147,46 @@ class Root:
                 "enabled": os.path.exists(st + svc + ".enabled")}
 
     def calls(self):
+        """[[args, hashes at begin, exit status, hashes at end, [args of the calls that BEGAN while this one
+        was in progress]] ..] in the order the calls began.  Waits (up to 100 s) for invocations that are
+        still in progress after the tool has exited."""
         p = self.root + "/standin/state/calls.log"
+        lines = []
+        deadline = time.time() + 100
+        while True:
+            lines = [l for l in open(p, errors="replace").read().split("\n") if l] if os.path.exists(p) else []
+            nb = sum(1 for l in lines if l.startswith("B|"))
+            ne = sum(1 for l in lines if l.startswith("E|"))
+            if nb == ne or time.time() > deadline:
+                break
+            time.sleep(0.2)
         out = []
+        for i, line in enumerate(lines):
+            if not line.startswith("B|"):
+                continue
+            _, pid, a, h = line.split("|", 3)
+            end, between = None, []
+            for l2 in lines[i + 1:]:
+                f = l2.split("|")
+                if f[0] == "E" and f[1] == pid and f[2] == a:
+                    end = f
+                    break
+                if f[0] == "B":
+                    between.append(f[2].split())
+            if end is None:
+                out.append([a.split(), h.split(), -1, ["unfinished"], between])
+            else:
+                out.append([a.split(), h.split(), int(end[4]), end[3].split(), between])
         if os.path.exists(p):
-            for line in open(p, errors="replace").read().split("\n"):
-                if not line:
-                    continue
-                a, h, rc = line.rsplit("|", 2)
-                out.append([a.split(), h.split(), int(rc)])
             os.unlink(p)
         return out
 
-    def run(self, args, faults=()):
+    def run(self, args, faults=(), delays=()):
         fp = self.root + "/standin/state/faults"
         with open(fp, "w") as f:
             f.write("".join("%d\n" % int(x) for x in faults))
+        with open(self.root + "/standin/state/delays", "w") as f:
+            f.write("".join("%s\n" % (("%.2f" % float(x)) if float(x) > 0 else "0") for x in delays))
         try:
             root = self.root
 
@@ -166,7 +194,7 @@ class Root:
                 os.chroot(root)
                 os.chdir("/")
             p = subprocess.run([self.exe] + list(args), executable=self.exe, env=self.env, stdin=subprocess.DEVNULL,
-                               stdout=subprocess.PIPE, stderr=subprocess.PIPE, timeout=120, preexec_fn=enter)
+                               stdout=subprocess.PIPE, stderr=subprocess.PIPE, timeout=300, preexec_fn=enter)
             rc, err = p.returncode, p.stderr.decode(errors="replace")[-400:]
             out = p.stdout.decode(errors="replace")[-1500:]
         except subprocess.TimeoutExpired:
@@ -190,8 +218,10 @@ def main():
             res = {"id": sc.get("id"), "init": r.state(), "steps": []}
             for k, args in enumerate(sc["cmds"]):
                 faults = (sc.get("faults") or [])[k] if k < len(sc.get("faults") or []) else []
-                rc, out, err = r.run(args, faults)
-                step = {"args": args, "rc": rc, "state": r.state(), "calls": r.calls()}
+                delays = (sc.get("delays") or [])[k] if k < len(sc.get("delays") or []) else []
+                rc, out, err = r.run(args, faults, delays)
+                calls = r.calls()          # waits for invocations still in progress
+                step = {"args": args, "rc": rc, "state": r.state(), "calls": calls}
                 if verbose or rc not in (0, 1, 101):
                     step["stdout"], step["stderr"] = out, err
                 elif rc == 101:
